@@ -806,6 +806,13 @@ class Table(Vector):
 
 		raise SerifTypeError(f"Unsupported assignment value type: {type(value)}")
 
+	def fingerprint(self) -> int:
+		# Columns are live views that can be written or renamed without the table
+		# being told, so a table-level memo can go stale; recompute from the
+		# columns (each of which caches its own fingerprint).
+		self._invalidate_fp()
+		return super().fingerprint()
+
 	def __iter__(self):
 		"""
 		Iterate over rows using the Fast View.
